@@ -19,6 +19,9 @@ pub(crate) mod specenc;
 #[path = "/verif/harness/spechdr.rs"]
 pub(crate) mod spechdr;
 
+#[path = "/verif/harness/dep.rs"]
+pub(crate) mod dep;
+
 // concrete playback tests written by the runner (only compiled by `cargo kani playback`)
 #[cfg(test)]
 #[path = "/verif/.work/playback.rs"]
